@@ -22,12 +22,14 @@ Definition sent_of_row (nsc : nat) (r : row) : list Z := skipn (length r - nsc) 
 Definition sort_key (r : row) : Z := last r 0.
 Definition ext_of (mask : list bool) (p : param) : list Z := map snd (select_mask false mask (snd p)).
 
-(* rowspec column: [0] id | [1; j] tuple[j] | [2; j] tuple[j] + first non-VALUES parameter | [3] NULL *)
+(* rowspec column: [0] id | [1; j] tuple[j] | [2; j] tuple[j] + first non-VALUES parameter | [3] NULL
+                   | [4] the first non-VALUES parameter of the statement (upsert SET col = :param) *)
 Definition db_col (x : option (list Z)) (p : param) (spec : list Z) : Z :=
   match spec with
   | [0] => Z.of_nat (fst p) + 1
   | [1; j] => nth (Z.to_nat j) (snd p) 0
   | [2; j] => nth (Z.to_nat j) (snd p) 0 + match x with Some (e :: _) => e | _ => 0 end
+  | [4] => match x with Some (e :: _) => e | _ => 0 end
   | _ => -1
   end.
 Definition db_row (rowspec : list (list Z)) (x : option (list Z)) (p : param) : row := map (db_col x p) rowspec.
@@ -104,11 +106,43 @@ Definition status_code {A} (r : result A) : Z :=
 Fixpoint index_from (i : nat) (l : list (list Z)) : list param :=
   match l with [] => [] | x :: r => (i, x) :: index_from (S i) r end.
 
-(* input  L [cfg; mask; sent_pos; rowspec; tuples; keys; fault; setup]
-   output L [cfg; mask; batches; status; rows; inserted] *)
+(* ---------------- ORM bulk insert (IMV.v section 7) ---------------- *)
+(* record = (global index, (key set id, name)); the mapped table has an autoincrement key, so the row
+   of a record is [index + 1; name].  sbo: every group's rows arrive in parameter order; otherwise in
+   some order - canonicalised (by the harness too) by sorting each group's rows by name *)
+Definition orm_record := (nat * (Z * Z))%type.
+Definition orm_row (r : orm_record) : row := [Z.of_nat (fst r) + 1; snd (snd r)].
+Definition orm_exec (sbo : bool) (g : list orm_record) : list row :=
+  if sbo then map orm_row g else sort_rows (fun r : row => nth 1 r 0) (map orm_row g).
+Fixpoint orm_index (i : nat) (ks names : list Z) : list orm_record :=
+  match ks, names with
+  | k :: kt, n :: nt => (i, (k, n)) :: orm_index (S i) kt nt
+  | _, _ => []
+  end.
+Definition run_orm (sbo : bool) (ks names : list Z) : tree :=
+  let recs := orm_index 0 ks names in
+  match orm_bulk_insert Z.eqb (fun r : orm_record => fst (snd r)) (orm_exec sbo) recs with
+  | Some rows => L [L (map (fun r => L (map I r)) rows); L (map (fun r => L (map I (orm_row r))) recs)]
+  | None => L [L []; L []]
+  end.
+
+(* the (key, value) pairs of the table after an upsert whose rows all existed before: the final rows *)
+Fixpoint insert_pair (r : row) (l : list row) : list row :=
+  match l with
+  | [] => [r]
+  | x :: t => if hd 0 r <=? hd 0 x then r :: l else x :: insert_pair r t
+  end.
+
+(* input  L [cfg; mask; sent_pos; rowspec; tuples; keys; fault; setup; post]   |  L [I 100; sbo; keysets; names; setup]
+   output L [cfg; mask; batches; status; rows; inserted; table]               |  L [rows; table] *)
 Definition run_case (t : tree) : tree :=
   match t with
-  | L [tcfg; tmask; tsent; tspec; ttuples; tkeys; tfault; _] =>
+  | L [I 100; I sbo; tks; tnames; _] =>
+    match as_list_of as_Z tks, as_list_of as_Z tnames with
+    | Some ks, Some names => run_orm (negb (sbo =? 0)) ks names
+    | _, _ => bad_input
+    end
+  | L [tcfg; tmask; tsent; tspec; ttuples; tkeys; tfault; _; tpost] =>
     match as_list_of as_boolz tmask, as_natlist tsent, as_list_of as_zlist tspec,
           as_list_of as_zlist ttuples, as_zlist tkeys, as_zlist tfault with
     | Some mask, Some sent_pos, Some rowspec, Some tuples, Some keys, Some fault =>
@@ -128,7 +162,11 @@ Definition run_case (t : tree) : tree :=
            | Ok rows => L (map (fun r => of_zlist (firstn (length r - nsc) r)) rows)
            | _ => L []
            end;
-           L (if neg then [] else map (fun p : param => of_nat (fst p)) (concat (map b_items (o_executed out))))]
+           L (if neg then [] else map (fun p : param => of_nat (fst p)) (concat (map b_items (o_executed out))));
+           match tpost, o_result out with
+           | L [I 1], Ok rows => L (map (fun r => of_zlist r) (fold_right insert_pair [] (map (firstn 2) rows)))
+           | _, _ => L []
+           end]
       | None => bad_input
       end
     | _, _, _, _, _, _ => bad_input
